@@ -94,10 +94,17 @@ def e2(ctx, F):
                               ("field", ("var", "self"), "piece_type"): ("variant", PT + kind)}, D)
             ok = False
             found = hir.fmt(v, 300)
+            # value = table entry * sign, in whatever spelling the folding leaves it: x * 1 = x, x * -1 = -x
+            a = b = None
             if v[0] == "bin" and v[1] == "*":
                 a, b = v[2], v[3]
                 if a == ("lit", sign):
                     a, b = b, a
+            elif v[0] == "neg":
+                a, b = v[1], ("lit", -1)
+            elif v[0] == "call":
+                a, b = v, ("lit", 1)
+            if a is not None:
                 if b == ("lit", sign) and a[0] == "call" and str(a[1]).endswith(("get_unchecked", "index")) and len(a[2]) == 2:
                     tab, idx = a[2]
                     tab_ok = tab in (("call", "std::cell::Cell::<T>::get", (("index", ("var", "scores"), ("lit", k)),)),)
